@@ -23,9 +23,19 @@ def eval_program(arg) -> dict:
     common.import_dznpy()
     want_mc = stream % 4 == 3
     need_two = stream % 3 == 2
+    # the all-MTS-requires programs queue at least one out-event whose in-argument is declared
+    # as a C++ reference: the closure must hold a copy, not the caller's object
+    need_ref = stream % 3 == 0
+
+    def accept(info):
+        if need_two:
+            return len(info['requires']) >= 2
+        if need_ref:
+            return any(info['ports'][p]['n_out_ref_formals'] for p in info['requires'])
+        return True
     prog, case, _rng = progrun.make_program(
-        PROP, seed, stream, scratch, want_mc, mc_shape=stream // 4,
-        accept=(lambda info: len(info['requires']) >= 2) if need_two else None)
+        PROP, seed, stream, scratch, want_mc, mc_shape=stream // 4, accept=accept,
+        ref_externs=0.8 if need_ref else None)
     if need_two:
         # one semantics by explicit names, the other by 'remaining': the warm-up build spells the
         # same assignment with two explicit sets from shared PortSelect objects
@@ -41,6 +51,8 @@ def eval_program(arg) -> dict:
         prog.enc['requires'] = {'sts': 'REMAINING', 'mts': 'NONE'}
     case['cfg'] = prog.enc
     out = {'violations': [], 'counts': {}}
+    if need_ref:
+        out['counts']['programs_queueing_reference_typed_arguments'] = 1
     flavor = 'asan'
     if not progrun.build_or_report(prog, case, out, [flavor]):
         return progrun.finish_program(prog, out, case)
@@ -66,7 +78,8 @@ def main(tier: str) -> int:
     run = common.Run(PROP, tier)
     n = 9 if tier == 'quick' else 400
     run.require('mts_provides_in', 'mts_requires_out', 'sts_events', 'identity_checks',
-                'gate_tests', 'programs', 'static_asserts_on_accessor_types')
+                'gate_tests', 'programs', 'static_asserts_on_accessor_types',
+                'programs_queueing_reference_typed_arguments')
     scratch = run.scratch()
     progrun.drive(run, eval_program, [(run.seed, i, scratch, tier) for i in range(n)])
     return run.finish(
